@@ -208,15 +208,17 @@ class Facts:
     def _derive_product(self, l):
         """co*x*y >= c > 0 over the integers with x >= 0 (or y >= 0) gives x >= 1 and y >= 1."""
         lc = self.canon(l)
-        if len(lc.t) != 1 or lc.c >= 0:
+        if not lc.t or lc.c >= 0:
             return
-        (m, co), = lc.t
-        if co <= 0 or len(m) != 2:
+        if len(lc.t) == 1:
+            (m, co), = lc.t
+            if co <= 0 or len(m) != 2:
+                return
+            x, y = Lin.sym(m[0]), Lin.sym(m[1])
+            if self.prove_ge(x) or self.prove_ge(y):
+                self.add_ge(x - 1)
+                self.add_ge(y - 1)
             return
-        x, y = Lin.sym(m[0]), Lin.sym(m[1])
-        if self.prove_ge(x) or self.prove_ge(y):
-            self.add_ge(x - 1)
-            self.add_ge(y - 1)
 
     def add_eq(self, l):
         self.add_ge(l)
@@ -265,6 +267,48 @@ class Facts:
                     p = deg1[i] * deg1[j]
                     if all(m in monos for m, _ in p.t) and p.degree() == 2:
                         extra.append(p)
+        rows = []
+        for l in cons + extra:
+            rows.append((dict(l.t), l.c))
+        if _fm_unsat(rows):
+            return True
+        n_base = len(extra)
+        # second attempt, with the
+        # integer factor lemma: x*A + c >= 0 with c < 0 and x >= 0 over the integers gives A >= 1
+        # (symbols pinned to zero by two rows are dropped first); purely syntactic side conditions
+        cset = set(cons)
+        zero = set()
+        for l in cons:
+            if l.c == 0 and len(l.t) == 1 and len(l.t[0][0]) == 1 and l.t[0][1] == 1 and (-l) in cset:
+                zero.add(l.t[0][0][0])
+        for l in cons:
+            if l.c >= 0 or l.degree() != 2:
+                continue
+            lc = l.subst({z: Lin.const(0) for z in zero}) if (zero & l.symbols()) else l
+            if not lc.t or lc.c >= 0 or lc.degree() != 2:
+                continue
+            common = set(lc.t[0][0])
+            for m, _ in lc.t[1:]:
+                common &= set(m)
+            for xs in sorted(common):
+                x = Lin.sym(xs)
+                if not (x in cset or (x - 1) in cset or (x - 2) in cset):
+                    continue
+                A = Lin(0, ())
+                for m, co in lc.t:
+                    mm = list(m)
+                    mm.remove(xs)
+                    A = (A + Lin(0, ((tuple(mm), co),))) if mm else (A + co)
+                if A.degree() <= 1 and (A - 1) not in cset:
+                    extra.append(A - 1)
+                    # and its products with the degree-1 rows (so that x*(A-1) >= 0 is available)
+                    for dl in deg1:
+                        p = (A - 1) * dl
+                        if p.degree() == 2 and all(m in monos for m, _ in p.t):
+                            extra.append(p)
+                break
+        if len(extra) == n_base:
+            return False
         rows = []
         for l in cons + extra:
             rows.append((dict(l.t), l.c))
